@@ -67,9 +67,15 @@ def check0(pin, pan, key=None):
         enc_want = refcrypto.tdes_ecb_encrypt(kb, want)
         cls = pinblock.Iso0TDESPinBlockWithVisaPVV
         try:
-            enc = cls(pin=pin, card_number=pan).to_enc_bytes(key)
+            obj = cls(pin=pin, card_number=pan)
+            # one object, asked under another key first: each call answers for the key it names
+            other = KEYS3[(KEYS3.index(key) + 1) % len(KEYS3)] if key in KEYS3 else KEYS3[0]
+            enc_other = obj.to_enc_bytes(other)
+            enc = obj.to_enc_bytes(key)
         except Exception as ex:
             return exc_sig('iso0-enc-raises', ex), f'to_enc_bytes raised {ex!r} ({name}, key {len(kb)} bytes)'
+        if enc_other != refcrypto.tdes_ecb_encrypt(bytes.fromhex(other), want):
+            return 'iso0-ciphertext', f'3DES ciphertext of the format-0 block under a second key is {enc_other.hex()}, reference {refcrypto.tdes_ecb_encrypt(bytes.fromhex(other), want).hex()} ({name})'
         if enc != enc_want:
             return 'iso0-ciphertext', f'3DES ciphertext of the format-0 block is {enc.hex()}, reference {enc_want.hex()} ({name}, key {len(kb)} bytes)'
         try:
